@@ -135,7 +135,9 @@ mutual
     declarations and assigned locals have their declared type (width ≠ 1: there is no 1-bit C type; a
     1-bit target would make `ValueType.__eq__` confuse it with the IL boolean), assigned registers have
     the documented operand width and are not source operands, the loop variable is 32 bit wide,
-    the jump target does not read `jump_flag`, stores are not 1 bit wide. -/
+    the jump target does not read `jump_flag`, stores are not 1 bit wide.  A bare value statement `e;` writes nothing
+    and needs no condition of its own: its value is among `exprsOf` (so the certificates demand `WFES c e`), and
+    `compileStmt`/`HybFreeS` reject a value with a side effect. -/
 def WFStmt (c : Ctx) : CStmt → Bool
   | .decl t n _ => lookupS n c.types == some t && t.width != 1
   | .assign lhs op _ => assignOps.contains op && lhsOK c lhs
